@@ -98,7 +98,16 @@ type wbuild struct {
 	force        []string
 	long         bool
 	alwaysDamage bool
-	live         map[*simexec.Invocation]string
+	// contend=1: a second `grog build` is started in the same workspace while an invocation runs
+	contend    bool
+	holder     *simrt.Proc          // the process whose lock file is in place (tracked at the lock file, contend=1 only)
+	gaveUpLock map[*simrt.Proc]bool // processes that removed their own lock file: no target activity may follow
+	liveProc   map[*simexec.Invocation]*simrt.Proc
+	contended  bool // a contender ran during the last invocation
+	// lockTainted: a contender removed a live holder's lock file, or a fault hit the lock file:
+	// overlaps from here on are consequences of the recorded locker windows (W-lock decides those)
+	lockTainted bool
+	live        map[*simexec.Invocation]string
 	// remote mode: epoch of the result the remote namespace holds per key (non-hermetic targets)
 	remoteNH map[string]string
 	// strict keys whose result the last checked build recorded (executed successfully, cacheable)
@@ -398,6 +407,31 @@ func (w *wbuild) handler(inv *simexec.Invocation) (int, error) {
 	if s == nil {
 		return 127, nil
 	}
+	if cp := simrt.CurProc(); cp != nil && w.contend {
+		w.mu.Lock()
+		h, gave := w.holder, w.gaveUpLock[cp]
+		if w.lockTainted {
+			h = nil
+		}
+		if w.liveProc == nil {
+			w.liveProc = map[*simexec.Invocation]*simrt.Proc{}
+		}
+		w.liveProc[inv] = cp
+		w.mu.Unlock()
+		defer func() {
+			w.mu.Lock()
+			delete(w.liveProc, inv)
+			w.mu.Unlock()
+		}()
+		if h != nil && cp != h && !h.Dead() {
+			w.s.Report(simrt.Violation{Prop: "C10", Class: "two-builds-in-one-workspace", Signature: "shell-started-without-holding-the-lock",
+				Detail: fmt.Sprintf("%s started a target shell (%s) while the workspace lock file in place is the one %s created, and %s is still running", cp.Name, s.Label(), h.Name, h.Name)})
+		}
+		if gave {
+			w.s.Report(simrt.Violation{Prop: "C10", Class: "lock-released-while-the-build-is-still-running", Signature: "shell-started-after-release",
+				Detail: fmt.Sprintf("%s started a target shell (%s) after it had removed its own workspace lock file", cp.Name, s.Label())})
+		}
+	}
 	if f[1] == "SIMCHECK" {
 		key := f[3]
 		ev := ExecEvent{Inv: invN, Label: s.Label(), Kind: "check", Start: inv.StartStep, Machine: m.Name, StartMS: inv.StartSim.Milliseconds()}
@@ -473,7 +507,7 @@ func (w *wbuild) handler(inv *simexec.Invocation) (int, error) {
 	if w.running > w.maxRun {
 		w.maxRun = w.running
 	}
-	over := w.running > w.curOpts.Workers
+	over := w.running > w.curOpts.Workers && !w.contended // two builds at once share the counter
 	workers := w.curOpts.Workers
 	running := w.running
 	w.mu.Unlock()
@@ -629,7 +663,108 @@ func (w *wbuild) invoke(m *Machine, req BuildReq, opts InvOpts, arm func(p *simr
 			cmds.RunCmd.Run(cmds.RunCmd, req.Patterns)
 		}
 	})
-	w.s.WaitProc(proc)
+	var procB *simrt.Proc
+	w.mu.Lock()
+	w.contended = false
+	w.mu.Unlock()
+	if w.contend && req.Kind == "build" && w.c.Choose(2, "contender") == 1 {
+		delay := time.Duration([]int{0, 1, 20, 400, 1500}[w.c.Choose(5, "contender-delay")]) * time.Millisecond
+		w.mu.Lock()
+		w.holder, w.gaveUpLock, w.contended, w.lockTainted = nil, map[*simrt.Proc]bool{}, true, false
+		if pl := simos.Plan; pl != nil {
+			prevTouched := pl.Touched
+			pl.Touched = func(op, path, kind string) {
+				if strings.HasSuffix(path, "/lockfile") {
+					w.mu.Lock()
+					w.lockTainted = true
+					w.mu.Unlock()
+				}
+				if prevTouched != nil {
+					prevTouched(op, path, kind)
+				}
+			}
+			defer func() { pl.Touched = prevTouched }()
+		}
+		w.mu.Unlock()
+		prevTrace := simos.Trace
+		simos.Trace = func(p *simrt.Proc, op, path string) {
+			if strings.HasSuffix(path, "/lockfile") {
+				w.mu.Lock()
+				switch op {
+				case "open":
+					if _, err := os.Lstat(path); err != nil {
+						w.holder = p // O_CREATE|O_EXCL is about to succeed: p's lock file is in place
+					}
+				case "remove":
+					if w.holder == p {
+						// the holder releases. Legitimate once its build is over; premature while one
+						// of its target shells is still running (more activity after the release is
+						// reported where it happens)
+						var mine []string
+						for iv, q := range w.liveProc {
+							if q == p && iv.Ctx.Err() == nil {
+								mine = append(mine, w.live[iv])
+							}
+						}
+						w.holder = nil
+						w.gaveUpLock[p] = true
+						if len(mine) > 0 {
+							sort.Strings(mine)
+							w.mu.Unlock()
+							w.s.Report(simrt.Violation{Prop: "C10", Class: "lock-released-while-the-build-is-still-running", Signature: "released-with-shells-running",
+								Detail: fmt.Sprintf("%s removed its workspace lock file while its target shells %v were still running", p.Name, mine)})
+							w.mu.Lock()
+						}
+					} else if w.holder != nil && !w.holder.Dead() {
+						// someone else removes a live holder's lock: the recorded windows of the locker
+						// protocol (W-lock decides those); what follows is their consequence
+						w.holder = nil
+						w.lockTainted = true
+						simrt.Probe("contender-removed-the-holders-lock")
+					} else {
+						w.holder = nil
+					}
+				}
+				w.mu.Unlock()
+			} else if (op == "rename" || op == "create" || op == "createtemp") && strings.Contains(path, "/cache/") {
+				w.mu.Lock()
+				gave := w.gaveUpLock[p]
+				w.mu.Unlock()
+				if gave {
+					w.s.Report(simrt.Violation{Prop: "C10", Class: "lock-released-while-the-build-is-still-running", Signature: "cache-write-after-release",
+						Detail: fmt.Sprintf("%s wrote into the cache (%s %s) after it had removed its own workspace lock file", p.Name, op, filepath.Base(path))})
+				}
+			}
+			if prevTrace != nil {
+				prevTrace(p, op, path)
+			}
+		}
+		defer func() { simos.Trace = prevTrace }()
+		started := make(chan struct{})
+		simrt.Go("wbuild:contender-start", func() {
+			defer close(started)
+			if delay > 0 {
+				simrt.Block0(func() { time.Sleep(delay) }, "wbuild:contender-delay")
+			}
+			simrt.Fault("contending-build")
+			procB = w.s.StartProc(fmt.Sprintf("grog-contender-%d", n), func() {
+				pd := simos.PD(simrt.CurProc())
+				pd.Cwd = m.WS
+				pd.Environ = []string{"PATH=/usr/bin:/bin", "HOME=" + m.Root}
+				cmds.BuildCmd.Run(cmds.BuildCmd, []string{"//..."})
+			})
+		})
+		w.s.WaitProc(proc)
+		simrt.Recv((<-chan struct{})(started), "wbuild:contender-started")
+		if procB != nil {
+			w.s.WaitProc(procB)
+		}
+		w.mu.Lock()
+		w.holder = nil
+		w.mu.Unlock()
+	} else {
+		w.s.WaitProc(proc)
+	}
 	res := &InvResult{N: n, ExitCode: proc.ExitCode, Cause: proc.Cause, Steps: w.s.Steps() - startSteps, SimMS: (w.s.SimElapsed() - startSim).Milliseconds(),
 		Ops: simos.PD(proc).Ops, EndSimMS: w.s.SimElapsed().Milliseconds()}
 	if b, err := os.ReadFile(logPath); err == nil {
